@@ -23,3 +23,13 @@ TEXT['C11'] = dict(
    technique='Coq proof: refinement of the two-key lazy-deletion store to a reference table over all histories, table invariants, search soundness/completeness; differential correspondence on exhaustive small-scope and random API histories under a virtual clock',
    level='Theorems in coq/Properties/C11.v hold for every history of database operations of any length, every non-decreasing clock, every candidate order, probe outcome/duration and cancellation point: the concrete store (two map keys per binding, lazy deletion, pointer comparison) returns exactly what the reference table returns; the table has at most one live binding per address and per client in every reachable state; an update succeeds iff it extends the own binding or creates one where both are free; expired entries are invisible, permanent ones persist; the search returns the own address, else the eligible suggestion, else an eligible range address, and fails only if none is eligible/disabled/cancelled. Tie to lib/server/ipdb: all 21 952 operation sequences of length 3 over a 28-operation alphabet plus random histories run on the real API inside testing/synctest each quick run.',
    note='Trusted: Coq kernel, extraction, driver, harness, hand-written model of ipdb/clients; the mutex makes each API call atomic (gofacts fact); rand.Perm order is validated not predicted.')
+
+TEXT['C14'] = dict(
+   technique='Coq proof that the receive filter accepts / aborts exactly when an independent raw-byte reading of the property\'s conjunction holds (iff over all byte strings), panic freedom; differential correspondence on the real catchReply and verify functions with the specification evaluated as a monitor',
+   level='Theorems in coq/Properties/C14.v hold for every byte string, every own hardware address and every wait state (OFFER, selecting/renewing/rebinding ACK): catch_reply returns accept iff IPv4 is well-formed with protocol 17, UDP is well-formed to port 68, the BOOTP message is decodable, chaddr = own address, xid = the one in flight, option 53 = OFFER resp. ACK, yiaddr and option 54 are neither 0 nor broadcast, option 3 holds at least one address, option 51 >= 60 s, and (selecting/renewing) option 54 = chosen server and yiaddr = offered address, (rebinding) yiaddr = leased address from any server; it returns nack iff decodable, own chaddr, option 53 = NAK while an ACK is awaited (never while waiting for an OFFER); every other packet is ignored; no input panics; the loop over any packet sequence ends at the first packet satisfying one of the two. Tie to lib/client/verify and dclient.catchReply: about 500 directed replies (all single and double condition failures in each of the four wait kinds), 1 200 random structured replies, truncations/corruptions, frame sequences and 2 048 direct verifier calls per quick run.',
+   note='Trusted: Coq kernel, extraction, driver, harness, hand-written model of verifyer.go/catchReply; in-memory socket; frames <= 4096 bytes. The code does not check the BOOTP op, the magic cookie, the UDP source port or any checksum, and neither does the property text; a NAK is not matched against the xid (as the text says).')
+
+TEXT['C16'] = dict(
+   technique='Coq proof that every templated message is recognised, on its raw bytes, as well-formed for its kind (via the proved encoders/decoders and checksum theorems of C12/C13); byte-equality correspondence with msgtmpl and the recogniser as a monitor. (Message-format half; retransmission timing is checked separately.)',
+   level='Theorems in coq/Properties/C16.v hold for every hardware address of up to 16 bytes, every xid, IP id, IAID, leased and server address and each of DISCOVER / selecting / renewing / rebinding REQUEST: the template returns a packet whose IPv4 header checksum and UDP checksum verify, UDP 68->67, BOOTREQUEST, htype 1, hlen/chaddr = the hardware address, magic cookie, option 53 of the kind, option 61 = ff|IAID|00 03 00 01|first six address bytes (IAID = CRC-32 of the address), options 57 and 55 present, and per kind exactly the listed IP source/destination, ciaddr and presence/absence and values of options 50 and 54; the decoded message and its option list in order are spelled out. Tie to lib/client/msgtmpl: byte equality on 1 000 random parameter sets (two transmissions each) plus every address length per quick run.',
+   note='Trusted: Coq kernel, extraction, driver, harness, hand-written model of msgtmpl and OptionClientIdentifier (literals ff/03/01 of the identifier are in the model, tied by byte equality). Addresses passed to the templates are non-nil IPv4.')
